@@ -2,7 +2,7 @@
 from sa import names as N
 from sa.prog import (Effect, Site, Slice, TERM, callee_of, must_order, ok_sites, err_sites, return_sites, op_local,
                      op_place, outcome_arms, in_arm)
-from sa.rules.common import publish_sites, is_test_or_bench
+from sa.rules.common import publish_sites, is_test_or_bench, is_queue_receiver
 from sa.rules.C01 import find_commit
 
 EXPLANATION = ("Decides, on every path of the commit code: no error return after the in-memory publish; publish only on the "
@@ -155,7 +155,7 @@ def r03e(ctx, P):
             if not t["args"] or not (cal.endswith(("Vec::<T, A>::push", "::extend", "::extend_from_slice", "::insert", "::append"))):
                 continue
             sl = sl or Slice(f)
-            if "pending_ops" in sl.fields(t["args"][0]):
+            if is_queue_receiver(f, sl, t["args"][0]):
                 sites.append((f, Site(f, b)))
     ctx.floor(rid, len(sites), 2, "sites extending the pending-operations queue (at least one add path and one delete path)")
     for f, p in sites:
